@@ -335,7 +335,9 @@ inline void m04(const Edge& e, const Parsed& P) {
 	// exactly one active state afterwards, chosen among requests that passed their guards
 	if (e.post.active == NONE8 || e.post.active >= N || e.post.mask != (1u << e.post.active)) { flag(C04, "not-exactly-one-active", e, "active=%d mask=%x", e.post.active, e.post.mask); return; }
 	bool among = e.post.active == (P.activation ? 0 : e.pre.active);
-	for (int i = f; i < P.nr; ++i) if (!P.r[i].cancelled && P.r[i].subj.d == e.post.active) among = true;
+	// a request has passed its guards when the exit guards of the active state (none during activation) and the entry guards of its
+	// destination were both consulted for it and none of them cancelled
+	for (int i = f; i < P.nr; ++i) if (!P.r[i].cancelled && P.r[i].subj.d == e.post.active && P.r[i].eg_ev >= 0 && (P.activation || P.r[i].xg_ev >= 0)) among = true;
 	if (!among) flag(C04, "active-not-among-survivors", e, "active=%d passed no guard round in this call", e.post.active);
 	TxS W = TX_NONE; bool hasW = winner(P, W);
 	if (e.post.active != (hasW ? W.d : (P.activation ? 0 : e.pre.active))) flag(C04, "limit-outcome", e, "active=%d, last surviving request targets %d", e.post.active, hasW ? W.d : -1);
